@@ -208,6 +208,16 @@ impl FlowSource for MemTableSource {
                 self.config.plan.event_type().to_string(),
             );
         }
+        // The same holds for FOR <context_id>: a memtable holds events of every context.
+        if self.config.plan.aggregate_plan.is_some() {
+            if let Some(context_id) = self.config.plan.context_id() {
+                evaluator.add_string_condition(
+                    "context_id".to_string(),
+                    CompareOp::Eq,
+                    context_id.to_string(),
+                );
+            }
+        }
         let query_ctx = QueryContext::from_command(&self.config.plan.command);
         let limit = self.determine_limit(&query_ctx);
 
